@@ -478,7 +478,10 @@ class Concatenator(Group):  # pylint: disable=too-many-public-methods
             if child not in self._children:
                 continue
 
-            self.remove_entity(child)
+            if isinstance(child, (Concatenated, ConcatenatedPropertyGroup)):
+                self.remove_entity(child)
+            else:
+                super().remove_children([child])
 
     def remove_entity(self, entity: Concatenated | ConcatenatedPropertyGroup):
         """Remove a concatenated entity."""
